@@ -77,7 +77,7 @@ def make_classes(levels: tuple, postponed: bool) -> list[type]:
     mod = types.ModuleType(modname)
     sys.modules[modname] = mod
     mod.__dict__["__source__"] = src
-    exec(compile(src, modname, "exec"), mod.__dict__)
+    exec(compile(src, modname, "exec", dont_inherit=True), mod.__dict__)
     return [mod.__dict__[n] for n in names]
 
 
@@ -122,6 +122,30 @@ class MEmpty{tag}(MNamed{tag}):
 class MOverride{tag}(MNamed{tag}):
     label: int = field(default=5, compare=False)
     name_kid: VBase | None = None
+
+# quoted (string) annotations interleaved with evaluated ones, no postponed evaluation in this module
+@dataclass(frozen=True)
+class MQuoted{tag}(VBase):
+    left: "VBase | None" = None
+    op: VBase | None = None
+    right: "tuple[VBase, ...]" = ()
+    extra: tuple[VBase, ...] = ()
+    q: "int" = 0
+    p: int = 1
+
+class _Ann{tag}:
+    # a plain (non-dataclass) base that merely annotates names the node class declares later
+    aname: int
+    atail: "VBase | None"
+
+@dataclass(frozen=True)
+class MAnnBase{tag}(VBase, _Ann{tag}):
+    aflag: int = 0
+    ahead: VBase | None = None
+    aname: int = 0
+    aitems: tuple[VBase, ...] = ()
+    atail: VBase | None = None
+    aweight: int = 0
 '''
 # expected user-field order (dataclass rule: bases in reverse MRO, overriding keeps position)
 MI_FIELDS = {
@@ -130,6 +154,8 @@ MI_FIELDS = {
     "MFunc": [("body", "ct"), ("flag", "pnc"), ("name_kid", "co"), ("label", "p")],
     "MEmpty": [("name_kid", "co"), ("label", "p")],
     "MOverride": [("name_kid", "co"), ("label", "pnc")],
+    "MQuoted": [("left", "co"), ("op", "co"), ("right", "ct"), ("extra", "ct"), ("q", "p"), ("p", "p")],
+    "MAnnBase": [("aflag", "p"), ("ahead", "co"), ("aname", "p"), ("aitems", "ct"), ("atail", "co"), ("aweight", "p")],
 }
 
 
@@ -139,5 +165,5 @@ def make_mi_classes() -> tuple[str, dict[str, type]]:
     modname = f"vgen_mi_{tag}"
     mod = types.ModuleType(modname)
     sys.modules[modname] = mod
-    exec(compile(MI_SOURCE.format(tag=tag), modname, "exec"), mod.__dict__)
+    exec(compile(MI_SOURCE.format(tag=tag), modname, "exec", dont_inherit=True), mod.__dict__)
     return tag, {k: mod.__dict__[f"{k}{tag}"] for k in MI_FIELDS}
